@@ -41,6 +41,12 @@ def rawSignatureData (origTtl labels : Nat) (rs : List CRec) : Bytes :=
   let sorted := wires.mergeSort (fun a b => bytesLE a.1 b.1)
   (dedupAdj sorted).flatMap (·.2)
 
+/-- the `Labels` field `RRSIG.Sign` computes: `CountLabel(owner)`, one less when the owner's text starts with `*` -/
+def signLabels (owner : List Bytes) : Nat :=
+  match owner with
+  | (42 :: _) :: _ => owner.length - 1
+  | _ => owner.length
+
 structure SigFields where
   typeCovered : Nat
   algorithm : Nat
